@@ -171,9 +171,9 @@ Definition on_stream (s : st) (sid : Z) (data : list Z) (fin : bool) : option Z 
 Definition handle_event (e : event) (s : st) : option Z * st :=
   match e with
   | EvCidIssued _ hx | EvCidRetired _ hx =>
-      if hx =? 0 then (None, s) else (Some (X_HANDLER + hx), s)
+      if hx =? 0 then (None, s) else (Some (X_HANDLER + Z.abs hx), s)
   | EvTerminated hx =>
-      if negb (hx =? 0) then (Some (X_HANDLER + hx), s) else
+      if negb (hx =? 0) then (Some (X_HANDLER + Z.abs hx), s) else
       (* abort connection waiter *)
       let r1 :=
         match cwait s with
